@@ -55,6 +55,13 @@ func (cs ClientState) Initialize(
 	store sdk.KVStore,
 	state exported.ConsensusState,
 ) error {
+	if _, ok := state.(*ConsensusState); !ok {
+		return sdkerrors.Wrapf(
+			types.ErrInvalidConsensus,
+			"invalid consensus state. expected type: %T, got: %T",
+			&ConsensusState{}, state,
+		)
+	}
 	return nil
 }
 
@@ -73,6 +80,13 @@ func (cs ClientState) UpgradeState(
 	store sdk.KVStore,
 	state exported.ConsensusState,
 ) error {
+	if _, ok := state.(*ConsensusState); !ok {
+		return sdkerrors.Wrapf(
+			types.ErrInvalidConsensus,
+			"invalid consensus state. expected type: %T, got: %T",
+			&ConsensusState{}, state,
+		)
+	}
 	return nil
 }
 
